@@ -466,7 +466,7 @@ fn gen_pieces(rng: &mut Rng, len: usize, cfg: &GenCfg, first: bool, st: &mut Gen
                         Path::ExtendValLazy,
                     ])
                 } else {
-                    rng.pick(&[Path::AddLoop, Path::ExtendVal, Path::ExtendRef])
+                    rng.pick(&[Path::AddLoop, Path::ExtendVal, Path::ExtendRef, Path::ExtendPanicsThenRetry])
                 }
             }
         };
